@@ -65,6 +65,7 @@ class Refuse(Exception):
 
 
 ANY, CALLABLE = "Any", "Callable"
+_ENV: list = []   # parameter types of the immediately called lambdas being looked into (innermost last)
 
 
 def _is_field_name(k) -> bool:
@@ -76,6 +77,9 @@ def infer(n):
     if isinstance(n, ast.Constant):
         return type(n.value)
     if isinstance(n, ast.Name):
+        for frame in reversed(_ENV):
+            if n.id in frame:
+                return frame[n.id]
         return CALLABLE if n.id in ("abs", "len") else ANY
     if isinstance(n, ast.Lambda):
         return CALLABLE
@@ -159,10 +163,31 @@ def infer(n):
         raise Refuse("conditional with incompatible branch types")
     if isinstance(n, ast.Call):
         infer(n.func)
+        pos = []
         for a in n.args:
-            infer(a.value if isinstance(a, ast.Starred) else a)
+            if isinstance(a, ast.Starred):
+                infer(a.value)
+                pos.append(ANY)
+            else:
+                pos.append(infer(a))
+        kws = {}
         for k in n.keywords:
-            infer(k.value)
+            kws[k.arg] = infer(k.value)
+        if isinstance(n.func, ast.Lambda):
+            # an immediately called lambda: the body is typed with the parameters at the types of their arguments
+            # (keyword over positional, Any when not given)
+            names = [a.arg for a in n.func.args.args]
+            frame = {nm: ANY for nm in names}
+            for nm, t in zip(names, pos):
+                frame[nm] = t
+            for nm, t in kws.items():
+                if nm in frame:
+                    frame[nm] = t
+            _ENV.append(frame)
+            try:
+                return infer(n.func.body)
+            finally:
+                _ENV.pop()
         return ANY
     if isinstance(n, (ast.Tuple, ast.List)):
         for x in n.elts:
@@ -384,6 +409,16 @@ def run(ctx):
         for tail in [".a", ".b", "['a']", "", ".a.pt", ".zip"]:
             cases.append((rng.choice(["Select", "SelectMany"]), rng.choice([f"{{{k1}: 3, 'a': e.x}}{tail}", f"{{'a': e.x, {k1}: e}}{tail}", f"{{{k1}: e}}{tail}"]),
                           rng.choice(["str", "ast", "callable"])))
+    # immediately called lambdas (given as text / AST: a Python callable has them inlined before, C05): parameters bound
+    # positionally, by keyword, both, too few arguments, no parameter at all, a starred argument
+    for _ in range(ctx.n(60, 1500)):
+        v, w = rng.sample(["j", "y", "value", "x", "k"], 2)
+        b1 = rng.choice([f"{v}.pt", f"{v}", f"({v}.pt, {w})", f"{v}.m({w})", f"{v} + e.n", f"{{'a': {v}}}.a", f"({v}, 1)[0]"])
+        arg1, arg2 = g.expr(rng.choice([0, 1])), g.expr(rng.choice([0, 1]))
+        shape = rng.choice([f"(lambda {v}: {b1})({arg1})", f"(lambda {v}: {b1})({v}={arg1})", f"(lambda {v}, {w}: {b1})({arg1}, {w}={arg2})",
+                            f"(lambda {v}, {w}: {b1})({w}={arg2}, {v}={arg1})", f"(lambda {v}, {w}: {b1})({arg1})", f"(lambda: e.pt)()",
+                            f"(lambda {v}: {b1})(*e.xs)", f"(lambda {v}, {w}: {b1})({arg1}, {arg2})", f"(lambda {v}: (lambda {w}: {b1})({w}={v}))({arg1})"])
+        cases.append((rng.choice(["Select", "SelectMany", "Where"]), shape, rng.choice(["str", "ast"])))
     for i in range(0, len(cases), 300):
         typed_noise(rng)
         check_cases(ctx, cases[i : i + 300])
